@@ -40,3 +40,4 @@ import SluVerif.Proofs.InitCursor
 #print axioms Slu.initLoop_cursor
 #print axioms Slu.parallelInit_loop_covers
 #print axioms Slu.initLoop_frame
+#print axioms Slu.parallelInit_queue_cursors
